@@ -651,13 +651,13 @@ PROPERTY = Property(
         "scientific-notation string, nested groups, expression (specifications); distinct = distinct case digest."
     ),
     subs=[
-        Sub("csv", prop=prop_roundtrip, strategy=lambda: G.parameter_sets("csv"), budget={"quick": 1600, "thorough": 60000}),
-        Sub("tsv", prop=prop_roundtrip, strategy=lambda: G.parameter_sets("tsv"), budget={"quick": 1200, "thorough": 40000}),
-        Sub("xlsx", prop=prop_roundtrip, strategy=lambda: G.parameter_sets("xlsx"), budget={"quick": 480, "thorough": 40000}),
-        Sub("ods", prop=prop_roundtrip, strategy=lambda: G.parameter_sets("ods"), budget={"quick": 480, "thorough": 40000}),
-        Sub("spec", prop=prop_spec, strategy=lambda: G.specifications(False), budget={"quick": 3200, "thorough": 200000},
+        Sub("csv", prop=prop_roundtrip, strategy=lambda: G.parameter_sets("csv"), budget={"quick": 1200, "thorough": 60000}),
+        Sub("tsv", prop=prop_roundtrip, strategy=lambda: G.parameter_sets("tsv"), budget={"quick": 800, "thorough": 40000}),
+        Sub("xlsx", prop=prop_roundtrip, strategy=lambda: G.parameter_sets("xlsx"), budget={"quick": 400, "thorough": 40000}),
+        Sub("ods", prop=prop_roundtrip, strategy=lambda: G.parameter_sets("ods"), budget={"quick": 400, "thorough": 40000}),
+        Sub("spec", prop=prop_spec, strategy=lambda: G.specifications(False), budget={"quick": 2400, "thorough": 200000},
             doc="list / dict / yml specifications vs programmatic construction"),
-        Sub("spec_sci", prop=prop_spec, strategy=lambda: G.specifications(True), budget={"quick": 800, "thorough": 40000},
+        Sub("spec_sci", prop=prop_spec, strategy=lambda: G.specifications(True), budget={"quick": 600, "thorough": 40000},
             doc="as spec, plus scientific-notation strings as values of unlabelled items (automatic numbering)"),
         *(
             [Sub("na_label", prop=prop_roundtrip, strategy=lambda: G.parameter_sets(None, na_labels=True), budget={"quick": 160, "thorough": 4000},
